@@ -259,6 +259,8 @@ def r17_2(rep, M, rid):
         for t, pol in conds:
             if pol is True and isinstance(t, ast.If):
                 members += t.test.values if isinstance(t.test, ast.BoolOp) and isinstance(t.test.op, ast.And) else [t.test]
+        # a disjunction guarantees none of its disjuncts, a negation the opposite: such members establish nothing
+        members = [m for m in members if not (isinstance(m, ast.BoolOp) and isinstance(m.op, ast.Or)) and not (isinstance(m, ast.UnaryOp) and isinstance(m.op, ast.Not))]
         cov = per = False
         strict_cov = False
         for m in members:
@@ -781,6 +783,7 @@ def run(rep, ctx):
         handlers.check_raises(rep, M, "R17.7", M.reachable([FQ]), FQ.split(".")[-1])
         from . import c04 as _c04
         _c04.builders_total(rep, M, "R17.7")
+        defaults_pass_validation(rep, M, "R17.7")
         _c04.masked_index_spaces(rep, M, "R17.7")      # an axis number indexing an array over the periodic vectors raises IndexError out of classify
     rep.rule("R17.8", "the geometry helpers classify rests on (get_dimensionality, get_radii, get_distances, displacement-tensor wrapper, clustering) satisfy their own rules (shared with C09/C10/C19)")
     with rep.guard("R17.8"):
@@ -807,3 +810,74 @@ META = {
     "note": "trusted: CPython ast; repository model; effect-analysis API tables; get_dimensionality's range {None,0,1,2,3}.",
     "technique": "conditional constant propagation over the dispatch + dominance/def-use guards + effect analysis",
 }
+
+
+# ----------------------------------------------------------------------------- the default options pass the constructor's own validation
+def defaults_pass_validation(rep, M, rid, fq=CLS + ".__init__"):
+    """partial evaluation of the constructor with every option at its default (literals, `constants.X` resolved from matid.data.constants): a `raise`
+    that is reached through tests all of which fold to a known value means that a default-constructed object cannot be built. Tests that do not fold
+    (anything depending on run-time data) are skipped together with their bodies."""
+    from ..constfold import Folder
+    fn = M.func(fq)
+    consts = {}
+    cm = M.mods.get("matid.data.constants")
+    f0 = Folder(what="matid.data.constants")
+    if cm is not None:
+        for st in cm.body:
+            if isinstance(st, ast.Assign) and len(st.targets) == 1 and isinstance(st.targets[0], ast.Name):
+                try:
+                    consts[st.targets[0].id] = f0.ev(st.value, dict(consts))
+                except AnalysisError:
+                    pass
+
+    def hook(e, env, folder):
+        if isinstance(e, ast.Attribute) and isinstance(e.value, ast.Name) and e.value.id == "constants" and e.attr in consts:
+            return consts[e.attr]
+        if isinstance(e, ast.Call) and isinstance(e.func, ast.Name) and e.func.id == "isinstance" and len(e.args) == 2:
+            v = folder.ev(e.args[0], env)
+            names = [x.id for x in (e.args[1].elts if isinstance(e.args[1], ast.Tuple) else [e.args[1]]) if isinstance(x, ast.Name)]
+            types = {"str": str, "int": int, "float": float, "list": list, "tuple": tuple, "bool": bool, "dict": dict, "set": set}
+            if names and all(nm in types for nm in names):
+                return isinstance(v, tuple(types[nm] for nm in names))
+            raise AnalysisError("isinstance against a type outside the folder")
+        return NotImplemented
+    F = Folder(hooks={"c": hook}, what=fq.split(".")[-2] + ".__init__")
+    env = {}
+    a = fn.args
+    for p, dv in zip(a.args[len(a.args) - len(a.defaults):], a.defaults):
+        try:
+            env[p.arg] = F.ev(dv, {})
+        except AnalysisError:
+            pass
+    reached = []
+    n_folded = [0]
+
+    def walk(stmts, env):
+        for s in stmts:
+            if isinstance(s, ast.If):
+                try:
+                    v = F.ev(s.test, env)
+                except (AnalysisError, Exception):
+                    continue
+                n_folded[0] += 1
+                if walk(s.body if v else s.orelse, env):
+                    return True
+            elif isinstance(s, ast.Assign) and len(s.targets) == 1 and isinstance(s.targets[0], ast.Name):
+                try:
+                    env[s.targets[0].id] = F.ev(s.value, env)
+                except (AnalysisError, Exception):
+                    env.pop(s.targets[0].id, None)
+            elif isinstance(s, ast.Raise):
+                reached.append(s)
+                return True
+            elif isinstance(s, ast.Return):
+                return True
+        return False
+    walk(fn.body, env)
+    if n_folded[0] < 3:
+        raise AnalysisError(f"{fq}: only {n_folded[0]} validation test(s) could be folded with the default options")
+    for r in reached:
+        rep.violation(rid, f"{fq.split('.')[-2]}.__init__: `{norm(r)[:60]}`", "with every option at its default value the constructor reaches this raise: a default-constructed "
+                      f"{fq.split('.')[-2]} cannot be built (the validation test in front of it is inverted or compares with the wrong value)", M.where(fq, r))
+    if not reached:
+        rep.ok(rid, f"{fq.split('.')[-2]}.__init__: the default options pass the constructor's own validation ({n_folded[0]} tests folded)")
